@@ -111,10 +111,35 @@ Definition stamp (index : N) (change : cmap) : cmap :=
 (* what Get loads: the values inlined in the entry, overlaid by the entries of the path-value map *)
 Definition overlay (inline m : cmap) : cmap := fold_left (fun acc '(k, v) => insert k v acc) m inline.
 
-(* reconcileCommit on the values: [m] the stored map, [vw] the loaded view *)
-Definition commit_merge (index : N) (m vw change : cmap) : cmap :=
+(* the [n]-th permutation of a list (factorial number system): stands for a Go map iteration order *)
+Fixpoint take_nth {A} (n : nat) (l : list A) : option (A * list A) :=
+  match l with
+  | [] => None
+  | x :: r => match n with
+              | O => Some (x, r)
+              | S n' => match take_nth n' r with Some (y, r') => Some (y, x :: r') | None => None end
+              end
+  end.
+Fixpoint permute_fuel {A} (fuel : nat) (n : N) (l : list A) : list A :=
+  match fuel with
+  | O => l
+  | S f =>
+    match l with
+    | [] => []
+    | _ => let len := N.of_nat (length l) in
+           match take_nth (N.to_nat (n mod len)) l with
+           | Some (x, r) => x :: permute_fuel f (n / len) r
+           | None => l
+           end
+    end
+  end.
+Definition permute {A} (n : N) (l : list A) : list A := permute_fuel (length l) n l.
+
+(* reconcileCommit on the values: [m] the stored map, [vw] the loaded view; the updated change values are
+   applied in Go map order ([ord] picks it): a descendant applied after its deleted ancestor drops that ancestor *)
+Definition commit_merge (ord : N) (index : N) (m vw change : cmap) : cmap :=
   let '(upd, st) := add_delete_children index change vw in
-  let st' := fold_left (fun acc '(p, v) => fst (apply_change_to_config acc p v)) upd st in
+  let st' := fold_left (fun acc '(p, v) => fst (apply_change_to_config acc p v)) (permute ord upd) st in
   store_write m st'.
 
 (* reconcileValidate, Change case *)
